@@ -1052,6 +1052,9 @@ class Engine:
                 if isinstance(t, ast.Name) and self.frames[-1]['contract'].get('locals', {}).get(t.id) == 'seqset' \
                         and isinstance(v, VSet2):
                     v = VSeqSet(z3.K(specs.ISeq, z3.BoolVal(False)))   # declared: a set of tuples of ints
+                if isinstance(t, ast.Name) and self.frames[-1]['contract'].get('locals', {}).get(t.id) == 'seqmap' \
+                        and isinstance(s.value, ast.Dict) and not s.value.keys:
+                    v = VSeqMap(z3.K(specs.ISeq, z3.BoolVal(False)), z3.K(specs.ISeq, z3.IntVal(0)))      # declared: a dict from int tuples to ints
                 if isinstance(t, ast.Name) and self.frames[-1]['contract'].get('locals', {}).get(t.id) == 'texttable':
                     v = VTextTable()                               # declared: a table of unmodelled texts
                 if isinstance(t, ast.Name) and isinstance(v, VArr) and getattr(v, 'blank', False) \
